@@ -83,7 +83,9 @@ CONSTANTS Cat,          \* configured WMS layers: name -> [name, srcs : Seq(Sour
           Defects,
           Tol           \* tolerance of the property in 1/255
 
-(* Source == [id, kind : "opq" | "rgba" | "pal" | "key", op : NONE | 0..100 (opacity in percent),             *)
+(* Source == [id, kind : "opq" | "rgba" | "pal" | "key" | "err", op : NONE | 0..100 (opacity in percent),     *)
+(*   ("err": the upstream answers with an HTTP error, `on_error` maps it to a colour WITH alpha: the layer is   *)
+(*    a uniform half-transparent tint - HTTPSourceErrorHandler -> BlankImageSource with transparent options)    *)
 (*            cov : "none" | "P", clip : BOOLEAN, url, rng : "all" | "fine", col : <<r, g, b>>,                *)
 (*            ssrs : BOOLEAN (supported_srs configured)]                                                       *)
 NONE == -1
@@ -140,8 +142,9 @@ Upstream(ls, tr, c) == UpOver(ls, 1, c, IF tr THEN White0 ELSE White)
 (***************************************************************************)
 (* Configuration facts of a source / layer                                 *)
 (***************************************************************************)
-ConfTr(s) == s.kind \in {"rgba", "pal"}              \* req.transparent: true -> image_opts.transparent, TRANSPARENT=true upstream
+ConfTr(s) == s.kind \in {"rgba", "pal", "err"}       \* req.transparent: true -> image_opts.transparent, TRANSPARENT=true upstream
 ImgTr(s) == ConfTr(s) \/ s.kind = "key"              \* WMSSource.__init__: transparent_color sets image_opts.transparent
+ErrA == 128                                           \* alpha of the on_error colour
 KeyTol == 5                                           \* globals.image.transparent_color_tolerance
 NearWhite(p) == p[1] >= 255 - KeyTol /\ p[2] >= 255 - KeyTol /\ p[3] >= 255 - KeyTol
 InRange(rng, o) == rng # "fine" \/ o.res = "fine"
@@ -176,7 +179,8 @@ LayerPx(u, o, r) ==
   LET f == u[1]
       up == Upstream(u, ConfTr(f), ContOf(r))
       sub == IF f.cov # "none" /\ ZoneOf(r) = "out" THEN White0 ELSE up     \* SubImageSource fill
-  IN IF f.kind = "key" /\ NearWhite(sub) THEN Px(sub, 0) ELSE sub              \* make_transparent
+  IN IF f.kind = "err" THEN Px(f.col, ErrA)                                    \* the tint of the error handler, everywhere
+     ELSE IF f.kind = "key" /\ NearWhite(sub) THEN Px(sub, 0) ELSE sub         \* make_transparent
 UnitBlank(u, o) == ~InRange(UnitRng(u), o) \/ (u[1].cov # "none" /\ "in" \notin o.zones)
 UnitSub(u, o) == u[1].cov # "none" /\ "out" \in o.zones
 UnitImage(u, o) ==
